@@ -208,17 +208,27 @@ func Now() Time {
     with open(ov_shift, "w") as fh:
         json.dump(ovj, fh)
     res["clock_shift"] = {"offsets_s": [], "records_compared": 0}
-    index = {(x["k"], x["h"], x["i"]): x for x in recs if x["k"] in ("step", "snap")}
-    for off in ([4000] if ctx.tier == "quick" else [4000, -4000, 90000]):
+    # both runs use timestamps anchored at the real time (TSBASE), so that code which wrongly reads the wall
+    # clock sees small distances in the reference run and large ones in the shifted run
+    tsbase = int(time.time())
+
+    def shifted_run(off):
         strace = os.path.join(ctx.scratch, "irctrace-shift%d.ndjson" % off)
         rc, out = ctx.go_test(".", ov_shift, "^TestVerifIRC$", timeout=1500, env={
             "VERIF_IRC_OUT": strace, "VERIF_IRC_IN": prog_file, "VERIF_IRC_GEN": gen, "VERIF_IRC_LEN": glen,
-            "VERIF_IRC_K": 1, "VERIF_IRC_SNAP": 1, "VERIF_IRC_FANOUT": 0, "VERIF_TIME_OFFSET_S": off})
+            "VERIF_IRC_K": 1, "VERIF_IRC_SNAP": 1, "VERIF_IRC_FANOUT": 0, "VERIF_TIME_OFFSET_S": off,
+            "VERIF_IRC_TSBASE": tsbase})
         if rc != 0 or not os.path.exists(strace):
             raise vlib.Inconclusive("clock-shifted IRC harness failed (rc=%s):\n%s" % (rc, out[-3000:]))
         srecs = vlib.read_ndjson(strace)
         if not srecs or srecs[-1]["k"] != "end":
             raise vlib.Inconclusive("clock-shifted IRC harness did not finish its trace")
+        return srecs
+
+    ref = shifted_run(0)
+    index = {(x["k"], x["h"], x["i"]): x for x in ref if x["k"] in ("step", "snap")}
+    for off in ([4000] if ctx.tier == "quick" else [4000, -4000, 90000]):
+        srecs = shifted_run(off)
         res["clock_shift"]["offsets_s"].append(off)
         seen_h = set()
         for y in srecs:
